@@ -1,29 +1,251 @@
-(* WalkSim.v — the generic lock-step simulation theorem for the walker.
-   Two handler records H1, H2 over client states S1, S2 and a relation Rc on
-   client states.  If every handler of H1 is simulated by the corresponding
-   handler of H2 (and they leave the registers in agreement), then the whole
-   template walk of H1 is simulated by the walk of H2, for every template, every
-   register file and all related client states. *)
+(* WalkSim.v — the generic simulation theorem for the walker, stated for an
+   ABSTRACT notion of simulation [sim] between state transformers that is closed
+   under the operations the walker is built from (return, bind, register update,
+   branching on registers, failure).  Two instances are used:
+     - lock-step simulation [simf] (this file): same registers, related clients;
+     - producer/consumer simulation [psf] (WalkPS.v): one side writes a stream
+       that the other side reads.
+   If every handler of H1 is [sim]-related to the corresponding handler of H2,
+   the whole template walk of H1 is [sim]-related to the walk of H2, for every
+   template. *)
 From PBK Require Import Base Descr Walk.
 
-Section Sim.
-Context {S1 S2 : Type} (H1 : handlers S1) (H2 : handlers S2) (Rc : S1 -> S2 -> Prop).
+Section Closure.
+Context {S1 S2 : Type} (H1 : handlers S1) (H2 : handlers S2).
 Context (al1 : N -> ws S1 -> result (ws S1)) (al2 : N -> ws S2 -> result (ws S2)).
+
+Variable sim : (ws S1 -> result (ws S1)) -> (ws S2 -> result (ws S2)) -> Prop.
+
+Hypothesis c_ret : sim (fun s => Ok s) (fun s => Ok s).
+Hypothesis c_bind : forall f1 f2 g1 g2,
+  sim f1 f2 -> sim g1 g2 -> sim (fun s => bind (f1 s) g1) (fun s => bind (f2 s) g2).
+Hypothesis c_ext : forall f1 f1' f2 f2',
+  (forall s, f1 s = f1' s) -> (forall s, f2 s = f2' s) -> sim f1 f2 -> sim f1' f2'.
+Hypothesis c_upd : forall f : regs -> regs, sim (fun s => Ok (upd_r f s)) (fun s => Ok (upd_r f s)).
+Hypothesis c_regs : forall (F1 : regs -> ws S1 -> result (ws S1)) (F2 : regs -> ws S2 -> result (ws S2)),
+  (forall r, sim (F1 r) (F2 r)) -> sim (fun s => F1 (w_r s) s) (fun s => F2 (w_r s) s).
+Hypothesis c_err : forall e f2, sim (fun _ => Err e) f2.
+
+(* ---- derived closure properties -------------------------------------------- *)
+Lemma c_pre_upd (f : regs -> regs) g1 g2 :
+  sim g1 g2 -> sim (fun s => g1 (upd_r f s)) (fun s => g2 (upd_r f s)).
+Proof.
+  intros Hg. eapply c_ext; [| |exact (c_bind _ _ _ _ (c_upd f) Hg)]; intros s; reflexivity.
+Qed.
+
+Lemma c_post_upd (f : regs -> regs) g1 g2 :
+  sim g1 g2 -> sim (fun s => bind (g1 s) (fun s' => Ok (upd_r f s'))) (fun s => bind (g2 s) (fun s' => Ok (upd_r f s'))).
+Proof. intros Hg. exact (c_bind _ _ _ _ Hg (c_upd f)). Qed.
+
+Lemma c_set_r r : sim (fun s => Ok (set_r r s)) (fun s => Ok (set_r r s)).
+Proof. exact (c_upd (fun _ => r)). Qed.
+
+Lemma c_iter n f1 f2 : sim f1 f2 -> sim (iter_res n f1) (iter_res n f2).
+Proof.
+  intros Hf. unfold iter_res. induction n as [|n IH] using N.peano_ind.
+  - exact c_ret.
+  - eapply c_ext; [| |exact (c_bind _ _ _ _ IH Hf)]; intros s; rewrite N.iter_succ; reflexivity.
+Qed.
+
+Lemma c_eta f1 f2 : sim f1 f2 -> sim (fun s => f1 s) (fun s => f2 s).
+Proof. intros H. exact H. Qed.
+
+(* ---- hypotheses: handler by handler ---------------------------------------- *)
+Hypothesis Hnumeric : forall dd a b c, sim (h_numeric H1 dd a b c) (h_numeric H2 dd a b c).
+Hypothesis Hnumeric_nr : forall dd a b c, sim (h_numeric_new_refval H1 dd a b c) (h_numeric_new_refval H2 dd a b c).
+Hypothesis Hstring : forall dd a, sim (h_string H1 dd a) (h_string H2 dd a).
+Hypothesis Hcodeflag : forall dd a b, sim (h_codeflag H1 dd a b) (h_codeflag H2 dd a b).
+Hypothesis Hnew_refval : forall dd a, sim (h_new_refval H1 dd a) (h_new_refval H2 dd a).
+Hypothesis Hconstant : forall dd a, sim (h_constant H1 dd a) (h_constant H2 dd a).
+Hypothesis Hdefine : forall b, sim (h_define_bitmap H1 b) (h_define_bitmap H2 b).
+Hypothesis Hmark : sim (h_mark_boundary H1) (h_mark_boundary H2).
+Hypothesis Hrecall : sim (h_recall_bitmap H1) (h_recall_bitmap H2).
+Hypothesis Hcancel : sim (h_cancel_bitmap H1) (h_cancel_bitmap H2).
+Hypothesis Hcancel_br : sim (h_cancel_backrefs H1) (h_cancel_backrefs H2).
+Hypothesis Haddbl : sim (h_add_bitmap_link H1) (h_add_bitmap_link H2).
+Hypothesis Hwrap : forall f1 f2, sim f1 f2 -> sim (h_bitmap_def_wrap H1 f1) (h_bitmap_def_wrap H2 f2).
+Hypothesis Hfixed : forall n f1 f2, sim f1 f2 -> sim (h_fixed H1 n f1) (h_fixed H2 n f2).
+Hypothesis Hdelayed : forall f1 f2, sim f1 f2 -> sim (h_delayed H1 f1) (h_delayed H2 f2).
+Hypothesis Hbitmapped : forall id f1 f2, sim f1 f2 -> sim (h_bitmapped H1 id f1) (h_bitmapped H2 id f2).
+Hypothesis Haddlink : forall idx, sim (al1 idx) (al2 idx).
+
+(* ---- the pieces of the walker ---------------------------------------------- *)
+Lemma sim_do_assoc id : sim (do_assoc H1 id) (do_assoc H2 id).
+Proof.
+  unfold do_assoc. apply (c_regs (fun r => do_assoc_r H1 r id) (fun r => do_assoc_r H2 r id)).
+  intros r. unfold do_assoc_r. cbv zeta. apply Hcodeflag.
+Qed.
+
+Lemma sim_elem_assoc e : sim (elem_assoc H1 e) (elem_assoc H2 e).
+Proof.
+  unfold elem_assoc. apply (c_regs (fun r => elem_assoc_r H1 r e) (fun r => elem_assoc_r H2 r e)).
+  intros r. unfold elem_assoc_r. destruct (r_assoc r); [exact c_ret|].
+  destruct (desc_X (e_id e) =? 31)%N; [exact c_ret|apply sim_do_assoc].
+Qed.
+
+Lemma sim_elem_qa e : sim (elem_qa H1 e) (elem_qa H2 e).
+Proof.
+  unfold elem_qa. apply (c_regs (fun r => elem_qa_r H1 r e) (fun r => elem_qa_r H2 r e)).
+  intros r. unfold elem_qa_r.
+  destruct (desc_X (e_id e) =? 33)%N.
+  - destruct (r_qa r =? QA_INFO_WAITING)%N; [apply (c_pre_upd _ _ _ Haddbl)|].
+    destruct (r_qa r =? QA_INFO_PROCESSING)%N; [exact Haddbl|exact c_ret].
+  - destruct (r_qa r =? QA_INFO_PROCESSING)%N; [apply c_upd|exact c_ret].
+Qed.
+
+Lemma sim_elem_body dd e : sim (elem_body H1 dd e) (elem_body H2 dd e).
+Proof.
+  unfold elem_body. apply (c_regs (fun r => elem_body_r H1 r dd e) (fun r => elem_body_r H2 r dd e)).
+  intros r. unfold elem_body_r. cbv zeta.
+  destruct (kind_of_unit (e_unit e)); [apply Hstring|apply Hcodeflag|].
+  destruct (refval_lookup _ _); [apply Hnumeric_nr|apply Hnumeric].
+Qed.
+
+Lemma sim_do_element dd e : sim (do_element H1 dd e) (do_element H2 dd e).
+Proof.
+  unfold do_element.
+  apply (c_bind (elem_assoc H1 e) (elem_assoc H2 e)); [apply sim_elem_assoc|].
+  apply (c_bind (elem_qa H1 e) (elem_qa H2 e)); [apply sim_elem_qa|apply sim_elem_body].
+Qed.
+
+Lemma sim_bitmapped_default id : sim (bitmapped_default H1 al1 id) (bitmapped_default H2 al2 id).
+Proof.
+  unfold bitmapped_default.
+  apply (c_regs (fun r => bitmapped_default_r H1 al1 r id) (fun r => bitmapped_default_r H2 al2 r id)).
+  intros r. unfold bitmapped_default_r.
+  destruct (next_bitmapped r) as [[[idx e] r']|err]; [|apply c_err].
+  apply (c_bind (fun s => al1 idx (set_r r' s)) (fun s => al2 idx (set_r r' s))).
+  - eapply c_ext; [| |exact (c_bind _ _ _ _ (c_set_r r') (Haddlink idx))]; intros s; reflexivity.
+  - apply sim_do_element.
+Qed.
+
+Lemma sim_bitmap_def_step id : sim (bitmap_def_step H1 id) (bitmap_def_step H2 id).
+Proof.
+  unfold bitmap_def_step.
+  apply (c_regs (fun r => bitmap_def_step_r H1 r id) (fun r => bitmap_def_step_r H2 r id)).
+  intros r. unfold bitmap_def_step_r.
+  destruct (r_bm_state r =? BITMAP_INDICATOR)%N.
+  { destruct (id =? 236000)%N; [apply c_upd|]. destruct (id =? 237000)%N; apply c_upd. }
+  destruct (r_bm_state r =? BITMAP_WAITING_FOR_BIT)%N.
+  { destruct (id =? 31031)%N; [apply c_upd|exact c_ret]. }
+  destruct (r_bm_state r =? BITMAP_BIT_COUNTING)%N; [|exact c_ret].
+  destruct (id =? 31031)%N; [apply c_upd|].
+  apply (c_post_upd _ _ _ (Hdefine (r_reuse r))).
+Qed.
+
+Lemma sim_do_marker_r r id :
+  sim (do_marker_r H1 r id (bitmapped_default H1 al1 id)) (do_marker_r H2 r id (bitmapped_default H2 al2 id)).
+Proof.
+  unfold do_marker_r.
+  apply (c_bind (fun s => match r_assoc r with [] => Ok s | _ :: _ => do_assoc H1 id s end)
+                (fun s => match r_assoc r with [] => Ok s | _ :: _ => do_assoc H2 id s end)).
+  - destruct (r_assoc r); [exact c_ret|apply sim_do_assoc].
+  - apply Hbitmapped. apply sim_bitmapped_default.
+Qed.
+
+Lemma sim_do_operator id :
+  sim (do_operator H1 id (bitmapped_default H1 al1 id)) (do_operator H2 id (bitmapped_default H2 al2 id)).
+Proof.
+  unfold do_operator.
+  apply (c_regs (fun r => do_operator_r H1 r id (bitmapped_default H1 al1 id))
+                (fun r => do_operator_r H2 r id (bitmapped_default H2 al2 id))).
+  intros r. unfold do_operator_r. cbv zeta.
+  destruct (id / 1000 =? 201)%N; [apply c_upd|].
+  destruct (id / 1000 =? 202)%N; [apply c_upd|].
+  destruct (id / 1000 =? 203)%N.
+  { destruct (Z.of_N (id mod 1000) =? 255)%Z; [apply c_upd|].
+    destruct (Z.of_N (id mod 1000) =? 0)%Z; apply c_upd. }
+  destruct (id / 1000 =? 204)%N.
+  { destruct (Z.of_N (id mod 1000) =? 0)%Z; [|apply c_upd].
+    destruct (r_assoc r); [apply c_err|apply c_upd]. }
+  destruct (id / 1000 =? 205)%N; [apply Hstring|].
+  destruct (id / 1000 =? 206)%N; [apply c_upd|].
+  destruct (id / 1000 =? 207)%N.
+  { destruct (Z.of_N (id mod 1000) =? 0)%Z; apply c_upd. }
+  destruct (id / 1000 =? 208)%N; [apply c_upd|].
+  destruct (id / 1000 =? 221)%N; [apply c_upd|].
+  destruct ((id / 1000 =? 222)%N || (id / 1000 =? 223)%N || (id / 1000 =? 224)%N
+            || (id / 1000 =? 225)%N || (id / 1000 =? 232)%N).
+  { destruct (Z.of_N (id mod 1000) =? 0)%Z; [|apply sim_do_marker_r].
+    apply (c_bind (fun s => h_mark_boundary H1 (upd_r (set_bm_state BITMAP_INDICATOR) s))
+                  (fun s => h_mark_boundary H2 (upd_r (set_bm_state BITMAP_INDICATOR) s)));
+      [apply (c_pre_upd _ _ _ Hmark)|].
+    apply (c_bind (h_constant H1 (DDOper id) 0) (h_constant H2 (DDOper id) 0)); [apply Hconstant|].
+    destruct (id / 1000 =? 222)%N; [apply c_upd|exact c_ret]. }
+  destruct (id / 1000 =? 235)%N; [exact Hcancel_br|].
+  destruct (id / 1000 =? 236)%N; [apply Hconstant|].
+  destruct (id / 1000 =? 237)%N; [|apply c_err].
+  apply (c_bind (fun s => if (Z.of_N (id mod 1000) =? 0)%Z then h_recall_bitmap H1 s
+                          else if r_reuse r then h_cancel_bitmap H1 s else Ok s)
+                (fun s => if (Z.of_N (id mod 1000) =? 0)%Z then h_recall_bitmap H2 s
+                          else if r_reuse r then h_cancel_bitmap H2 s else Ok s)); [|apply Hconstant].
+  destruct (Z.of_N (id mod 1000) =? 0)%Z; [exact Hrecall|].
+  destruct (r_reuse r); [exact Hcancel|exact c_ret].
+Qed.
+
+Lemma sim_member_rest d n1 n2 : sim n1 n2 -> sim (member_rest H1 d n1) (member_rest H2 d n2).
+Proof.
+  intros Hn. unfold member_rest.
+  apply (c_regs (fun r => member_rest_r H1 r d n1) (fun r => member_rest_r H2 r d n2)).
+  intros r. unfold member_rest_r. cbv zeta.
+  destruct (if (r_nbits_new_refval r =? 0)%Z then None else is_plain_elem d) as [e|].
+  { destruct (kind_of_unit (e_unit e)); [apply c_err|apply Hnew_refval|apply Hnew_refval]. }
+  destruct (negb (r_nbits_skipped r =? 0)%Z).
+  { apply (c_post_upd _ _ _ (Hcodeflag _ _ _)). }
+  destruct (negb (r_bm_state r =? BITMAP_NA)%N); [|exact Hn].
+  apply (c_bind (h_bitmap_def_wrap H1 (bitmap_def_step H1 (desc_id d)))
+                (h_bitmap_def_wrap H2 (bitmap_def_step H2 (desc_id d)))); [|exact Hn].
+  apply Hwrap. apply sim_bitmap_def_step.
+Qed.
+
+Lemma sim_member_step d n1 n2 : sim n1 n2 -> sim (member_step H1 d n1) (member_step H2 d n2).
+Proof.
+  intros Hn. unfold member_step.
+  apply (c_regs (fun r => member_step_r H1 r d n1) (fun r => member_step_r H2 r d n2)).
+  intros r. unfold member_step_r.
+  destruct (r_dnp r =? 0)%Z; [apply sim_member_rest; exact Hn|].
+  destruct (dnp_skips d); [apply c_upd|].
+  apply (c_pre_upd _ _ _ (sim_member_rest d _ _ Hn)).
+Qed.
+
+(* ---- the theorem ----------------------------------------------------------- *)
+Theorem walk_sim_gen :
+  (forall d, sim (walk H1 al1 d) (walk H2 al2 d)) /\
+  (forall ms, sim (walk_list H1 al1 ms) (walk_list H2 al2 ms)).
+Proof.
+  apply desc_descs_ind.
+  - intros e. cbn [walk]. apply sim_do_element.
+  - intros id ms IH. cbn [walk]. apply Hfixed. exact IH.
+  - intros id f _ ms IH. cbn [walk].
+    apply (c_bind (fun s => match f with DElem e => do_element H1 (DDElem e) e s | _ => Err EAttr end)
+                  (fun s => match f with DElem e => do_element H2 (DDElem e) e s | _ => Err EAttr end)).
+    + destruct f; try apply c_err. apply sim_do_element.
+    + apply Hdelayed. exact IH.
+  - intros id. cbn [walk]. apply sim_do_operator.
+  - intros id ms IH. exact IH.
+  - intros id. apply c_err.
+  - intros id. apply c_err.
+  - exact c_ret.
+  - intros d IHd ds IHds.
+    change (sim (fun s => bind (member_step H1 d (walk H1 al1 d) s) (walk_list H1 al1 ds))
+                (fun s => bind (member_step H2 d (walk H2 al2 d) s) (walk_list H2 al2 ds))).
+    apply (c_bind (member_step H1 d (walk H1 al1 d)) (member_step H2 d (walk H2 al2 d))); [|exact IHds].
+    apply sim_member_step. exact IHd.
+Qed.
+
+End Closure.
+
+(* ======================================================================== *)
+(* Instance 1: lock-step simulation                                          *)
+(* ======================================================================== *)
+Section Sim.
+Context {S1 S2 : Type} (Rc : S1 -> S2 -> Prop).
 
 Definition Rst (s1 : ws S1) (s2 : ws S2) : Prop := w_r s1 = w_r s2 /\ Rc (w_c s1) (w_c s2).
 
 Definition simf (f1 : ws S1 -> result (ws S1)) (f2 : ws S2 -> result (ws S2)) : Prop :=
   forall s1 s2 s1', Rst s1 s2 -> f1 s1 = Ok s1' -> exists s2', f2 s2 = Ok s2' /\ Rst s1' s2'.
 
-(* results that are a sum (pre_member) *)
-Definition Rsum (p1 : ws S1 + ws S1) (p2 : ws S2 + ws S2) : Prop :=
-  match p1, p2 with
-  | inl a, inl b => Rst a b
-  | inr a, inr b => Rst a b
-  | _, _ => False
-  end.
-
-(* ---- closure properties ---------------------------------------------------- *)
 Lemma sim_ret : simf (fun s => Ok s) (fun s => Ok s).
 Proof. intros s1 s2 s1' HR E. injection E as <-. eauto. Qed.
 
@@ -42,19 +264,14 @@ Proof.
   destruct (Hf _ _ _ HR E) as (s2' & E2 & HR'). rewrite <- X2. eauto.
 Qed.
 
-Lemma sim_upd (f : regs -> regs) : simf (fun s => Ok (upd_r f s)) (fun s => Ok (upd_r f s)).
-Proof.
-  intros s1 s2 s1' [Hr Hc] E. injection E as <-. eexists; split; [reflexivity|].
-  split; cbn; [congruence|exact Hc].
-Qed.
-
 Lemma Rst_upd (f : regs -> regs) s1 s2 : Rst s1 s2 -> Rst (upd_r f s1) (upd_r f s2).
 Proof. intros [Hr Hc]. split; cbn; [congruence|exact Hc]. Qed.
 
-Lemma Rst_mk r s1 s2 : Rst s1 s2 -> Rst (mkWs r (w_c s1)) (mkWs r (w_c s2)).
-Proof. intros [Hr Hc]. split; cbn; [reflexivity|exact Hc]. Qed.
+Lemma sim_upd (f : regs -> regs) : simf (fun s => Ok (upd_r f s)) (fun s => Ok (upd_r f s)).
+Proof.
+  intros s1 s2 s1' HR E. injection E as <-. eexists; split; [reflexivity|apply Rst_upd; exact HR].
+Qed.
 
-(* a computation that depends on the registers: same registers, same branch *)
 Lemma sim_regs (F1 : regs -> ws S1 -> result (ws S1)) (F2 : regs -> ws S2 -> result (ws S2)) :
   (forall r, simf (F1 r) (F2 r)) -> simf (fun s => F1 (w_r s) s) (fun s => F2 (w_r s) s).
 Proof.
@@ -66,240 +283,12 @@ Lemma sim_err e f2 : simf (fun _ => Err e) f2.
 Proof. intros s1 s2 s1' _ E. discriminate. Qed.
 
 Lemma sim_iter n f1 f2 : simf f1 f2 -> simf (iter_res n f1) (iter_res n f2).
-Proof.
-  intros Hf. unfold iter_res. induction n as [|n IH] using N.peano_ind.
-  - exact sim_ret.
-  - eapply sim_ext; [| |exact (sim_bind _ _ _ _ IH Hf)]; intros s; rewrite N.iter_succ; reflexivity.
-Qed.
+Proof. apply (c_iter simf sim_ret sim_bind sim_ext). Qed.
 
-(* ---- hypotheses: handler by handler ---------------------------------------- *)
-Hypothesis Hnumeric : forall dd a b c, simf (h_numeric H1 dd a b c) (h_numeric H2 dd a b c).
-Hypothesis Hnumeric_nr : forall dd a b c, simf (h_numeric_new_refval H1 dd a b c) (h_numeric_new_refval H2 dd a b c).
-Hypothesis Hstring : forall dd a, simf (h_string H1 dd a) (h_string H2 dd a).
-Hypothesis Hcodeflag : forall dd a b, simf (h_codeflag H1 dd a b) (h_codeflag H2 dd a b).
-Hypothesis Hnew_refval : forall dd a, simf (h_new_refval H1 dd a) (h_new_refval H2 dd a).
-Hypothesis Hconstant : forall dd a, simf (h_constant H1 dd a) (h_constant H2 dd a).
-Hypothesis Hdefine : forall b, simf (h_define_bitmap H1 b) (h_define_bitmap H2 b).
-Hypothesis Hmark : simf (h_mark_boundary H1) (h_mark_boundary H2).
-Hypothesis Hrecall : simf (h_recall_bitmap H1) (h_recall_bitmap H2).
-Hypothesis Hcancel : simf (h_cancel_bitmap H1) (h_cancel_bitmap H2).
-Hypothesis Hcancel_br : simf (h_cancel_backrefs H1) (h_cancel_backrefs H2).
-Hypothesis Haddbl : simf (h_add_bitmap_link H1) (h_add_bitmap_link H2).
-Hypothesis Hwrap : forall f1 f2, simf f1 f2 -> simf (h_bitmap_def_wrap H1 f1) (h_bitmap_def_wrap H2 f2).
-Hypothesis Hfixed : forall n f1 f2, simf f1 f2 -> simf (h_fixed H1 n f1) (h_fixed H2 n f2).
-Hypothesis Hdelayed : forall f1 f2, simf f1 f2 -> simf (h_delayed H1 f1) (h_delayed H2 f2).
-Hypothesis Hbitmapped : forall id f1 f2, simf f1 f2 -> simf (h_bitmapped H1 id f1) (h_bitmapped H2 id f2).
-Hypothesis Haddlink : forall idx, simf (al1 idx) (al2 idx).
+Context (H1 : handlers S1) (H2 : handlers S2).
+Context (al1 : N -> ws S1 -> result (ws S1)) (al2 : N -> ws S2 -> result (ws S2)).
 
-(* ---- the pieces of the walker ---------------------------------------------- *)
-Lemma sim_do_assoc id : simf (do_assoc H1 id) (do_assoc H2 id).
-Proof.
-  unfold do_assoc.
-  apply (sim_regs (fun r => h_codeflag H1 (DDAssoc id (sumZ (r_assoc r))) (sumZ (r_assoc r)) (sumZ (r_assoc r)))
-                  (fun r => h_codeflag H2 (DDAssoc id (sumZ (r_assoc r))) (sumZ (r_assoc r)) (sumZ (r_assoc r)))).
-  intros r. apply Hcodeflag.
-Qed.
-
-Lemma sim_do_element dd e : simf (do_element H1 dd e) (do_element H2 dd e).
-Proof.
-  unfold do_element.
-  apply sim_bind; [|apply sim_bind].
-  - (* associated field *)
-    apply (sim_regs (fun r s => match r_assoc r with [] => Ok s | _ :: _ =>
-                        if (desc_X (e_id e) =? 31)%N then Ok s else do_assoc H1 (e_id e) s end)
-                    (fun r s => match r_assoc r with [] => Ok s | _ :: _ =>
-                        if (desc_X (e_id e) =? 31)%N then Ok s else do_assoc H2 (e_id e) s end)).
-    intros r. destruct (r_assoc r); [exact sim_ret|].
-    destruct (desc_X (e_id e) =? 31)%N; [exact sim_ret|apply sim_do_assoc].
-  - (* class 33 *)
-    destruct (desc_X (e_id e) =? 33)%N.
-    + intros s1 s2 s1' HR E.
-      assert (HR' : Rst (if (r_qa (w_r s1) =? QA_INFO_WAITING)%N then upd_r (set_qa QA_INFO_PROCESSING) s1 else s1)
-                        (if (r_qa (w_r s2) =? QA_INFO_WAITING)%N then upd_r (set_qa QA_INFO_PROCESSING) s2 else s2)).
-      { destruct HR as [Hr Hc]. rewrite <- Hr.
-        destruct (r_qa (w_r s1) =? QA_INFO_WAITING)%N; [apply Rst_upd|]; split; assumption. }
-      cbv zeta in E |- *.
-      set (a1 := if (r_qa (w_r s1) =? QA_INFO_WAITING)%N then _ else _) in *.
-      set (a2 := if (r_qa (w_r s2) =? QA_INFO_WAITING)%N then _ else _) in *.
-      destruct HR' as [Hr' Hc']. rewrite <- Hr'.
-      destruct (r_qa (w_r a1) =? QA_INFO_PROCESSING)%N.
-      * eapply Haddbl; [split; eassumption|exact E].
-      * injection E as <-. eexists; split; [reflexivity|split; assumption].
-    + intros s1 s2 s1' HR E. injection E as <-. eexists; split; [reflexivity|].
-      destruct HR as [Hr Hc]. rewrite <- Hr.
-      destruct (r_qa (w_r s1) =? QA_INFO_PROCESSING)%N; [apply Rst_upd|]; split; assumption.
-  - (* the element proper *)
-    apply (sim_regs
-      (fun r s => match kind_of_unit (e_unit e) with
-        | KString => h_string H1 dd (if (r_new_nbytes r =? 0)%Z then (e_nbits e / 8)%Z else r_new_nbytes r) s
-        | KCodeFlag => h_codeflag H1 dd (e_nbits e) (e_nbits e) s
-        | KNumeric => match refval_lookup (e_id e) (r_new_refvals r) with
-            | None => h_numeric H1 dd (e_nbits e + r_nbits_offset r + bsr_nbits (r_bsr r))%Z
-                        (e_scale e + r_scale_offset r + bsr_scale (r_bsr r))%Z (e_refval e * bsr_factor (r_bsr r))%Z s
-            | Some _ => h_numeric_new_refval H1 dd (e_nbits e + r_nbits_offset r + bsr_nbits (r_bsr r))%Z
-                        (e_scale e + r_scale_offset r + bsr_scale (r_bsr r))%Z (bsr_factor (r_bsr r)) s
-            end end)
-      (fun r s => match kind_of_unit (e_unit e) with
-        | KString => h_string H2 dd (if (r_new_nbytes r =? 0)%Z then (e_nbits e / 8)%Z else r_new_nbytes r) s
-        | KCodeFlag => h_codeflag H2 dd (e_nbits e) (e_nbits e) s
-        | KNumeric => match refval_lookup (e_id e) (r_new_refvals r) with
-            | None => h_numeric H2 dd (e_nbits e + r_nbits_offset r + bsr_nbits (r_bsr r))%Z
-                        (e_scale e + r_scale_offset r + bsr_scale (r_bsr r))%Z (e_refval e * bsr_factor (r_bsr r))%Z s
-            | Some _ => h_numeric_new_refval H2 dd (e_nbits e + r_nbits_offset r + bsr_nbits (r_bsr r))%Z
-                        (e_scale e + r_scale_offset r + bsr_scale (r_bsr r))%Z (bsr_factor (r_bsr r)) s
-            end end)).
-    intros r. destruct (kind_of_unit (e_unit e)); [apply Hstring|apply Hcodeflag|].
-    destruct (refval_lookup _ _); [apply Hnumeric_nr|apply Hnumeric].
-Qed.
-
-Lemma sim_bitmapped_default id : simf (bitmapped_default H1 al1 id) (bitmapped_default H2 al2 id).
-Proof.
-  intros s1 s2 s1' HR E. unfold bitmapped_default in *.
-  destruct HR as [Hr Hc]. rewrite <- Hr.
-  destruct (next_bitmapped (w_r s1)) as [[[idx e] r']|] eqn:En; cbn [bind] in E |- *; [|discriminate].
-  destruct (al1 idx (mkWs r' (w_c s1))) as [m1|] eqn:E1; cbn [bind] in E; [|discriminate].
-  assert (HRm : Rst (mkWs r' (w_c s1)) (mkWs r' (w_c s2))) by (split; cbn; [reflexivity|exact Hc]).
-  destruct (Haddlink idx _ _ _ HRm E1) as (m2 & E2 & HR2). rewrite E2. cbn [bind].
-  eapply sim_do_element; eassumption.
-Qed.
-
-Lemma sim_bitmap_def_step id : simf (bitmap_def_step H1 id) (bitmap_def_step H2 id).
-Proof.
-  intros s1 s2 s1' HR E. unfold bitmap_def_step in *. cbv zeta in *.
-  pose proof HR as [Hr Hc]. rewrite <- Hr.
-  destruct (r_bm_state (w_r s1) =? BITMAP_INDICATOR)%N.
-  { destruct (id =? 236000)%N; [|destruct (id =? 237000)%N];
-      injection E as <-; (eexists; split; [reflexivity|apply Rst_upd; exact HR]). }
-  destruct (r_bm_state (w_r s1) =? BITMAP_WAITING_FOR_BIT)%N.
-  { destruct (id =? 31031)%N; injection E as <-;
-      (eexists; split; [reflexivity|first [apply Rst_upd; exact HR|exact HR]]). }
-  destruct (r_bm_state (w_r s1) =? BITMAP_BIT_COUNTING)%N.
-  { destruct (id =? 31031)%N.
-    - injection E as <-. eexists; split; [reflexivity|apply Rst_upd; exact HR].
-    - destruct (h_define_bitmap H1 (r_reuse (w_r s1)) s1) as [m1|] eqn:E1; cbn [bind] in E; [|discriminate].
-      destruct (Hdefine _ _ _ _ HR E1) as (m2 & E2 & HRm). rewrite E2. cbn [bind].
-      injection E as <-. eexists; split; [reflexivity|apply Rst_upd; exact HRm]. }
-  injection E as <-. eauto.
-Qed.
-
-Lemma sim_do_marker id : simf (do_marker H1 id (bitmapped_default H1 al1 id)) (do_marker H2 id (bitmapped_default H2 al2 id)).
-Proof.
-  unfold do_marker. apply sim_bind.
-  - apply (sim_regs (fun r s => match r_assoc r with [] => Ok s | _ :: _ => do_assoc H1 id s end)
-                    (fun r s => match r_assoc r with [] => Ok s | _ :: _ => do_assoc H2 id s end)).
-    intros r. destruct (r_assoc r); [exact sim_ret|apply sim_do_assoc].
-  - apply Hbitmapped. apply sim_bitmapped_default.
-Qed.
-
-Ltac fin_upd HR E := injection E as <-; eexists; split; [reflexivity|first [apply Rst_upd; exact HR|exact HR]].
-
-Lemma sim_do_operator id :
-  simf (do_operator H1 id (bitmapped_default H1 al1 id)) (do_operator H2 id (bitmapped_default H2 al2 id)).
-Proof.
-  intros s1 s2 s1' HR E. unfold do_operator in *. cbv zeta in *.
-  pose proof HR as [Hr Hc]. rewrite <- Hr.
-  destruct (id / 1000 =? 201)%N; [fin_upd HR E|].
-  destruct (id / 1000 =? 202)%N; [fin_upd HR E|].
-  destruct (id / 1000 =? 203)%N.
-  { destruct (Z.of_N (id mod 1000) =? 255)%Z; [fin_upd HR E|].
-    injection E as <-. eexists; split; [reflexivity|].
-    destruct (Z.of_N (id mod 1000) =? 0)%Z; repeat apply Rst_upd; exact HR. }
-  destruct (id / 1000 =? 204)%N.
-  { destruct (Z.of_N (id mod 1000) =? 0)%Z; [|fin_upd HR E].
-    destruct (r_assoc (w_r s1)); [discriminate|fin_upd HR E]. }
-  destruct (id / 1000 =? 205)%N; [eapply Hstring; eassumption|].
-  destruct (id / 1000 =? 206)%N; [fin_upd HR E|].
-  destruct (id / 1000 =? 207)%N.
-  { destruct (Z.of_N (id mod 1000) =? 0)%Z; fin_upd HR E. }
-  destruct (id / 1000 =? 208)%N; [fin_upd HR E|].
-  destruct (id / 1000 =? 221)%N; [fin_upd HR E|].
-  destruct ((id / 1000 =? 222)%N || (id / 1000 =? 223)%N || (id / 1000 =? 224)%N
-            || (id / 1000 =? 225)%N || (id / 1000 =? 232)%N).
-  { destruct (Z.of_N (id mod 1000) =? 0)%Z; [|eapply sim_do_marker; eassumption].
-    assert (HR0 : Rst (upd_r (set_bm_state BITMAP_INDICATOR) s1) (upd_r (set_bm_state BITMAP_INDICATOR) s2))
-      by (apply Rst_upd; exact HR).
-    destruct (h_mark_boundary H1 _) as [a1|] eqn:Ea; cbn [bind] in E; [|discriminate].
-    destruct (Hmark _ _ _ HR0 Ea) as (a2 & Ea2 & HRa). rewrite Ea2. cbn [bind].
-    destruct (h_constant H1 _ _ a1) as [b1|] eqn:Eb; cbn [bind] in E; [|discriminate].
-    destruct (Hconstant _ _ _ _ _ HRa Eb) as (b2 & Eb2 & HRb). rewrite Eb2. cbn [bind].
-    injection E as <-. eexists; split; [reflexivity|].
-    destruct (id / 1000 =? 222)%N; [apply Rst_upd|]; exact HRb. }
-  destruct (id / 1000 =? 235)%N; [eapply Hcancel_br; eassumption|].
-  destruct (id / 1000 =? 236)%N; [eapply Hconstant; eassumption|].
-  destruct (id / 1000 =? 237)%N; [|discriminate].
-  destruct (Z.of_N (id mod 1000) =? 0)%Z.
-  - destruct (h_recall_bitmap H1 s1) as [a1|] eqn:Ea; cbn [bind] in E; [|discriminate].
-    destruct (Hrecall _ _ _ HR Ea) as (a2 & Ea2 & HRa). rewrite Ea2. cbn [bind].
-    eapply Hconstant; eassumption.
-  - destruct (r_reuse (w_r s1)).
-    + destruct (h_cancel_bitmap H1 s1) as [a1|] eqn:Ea; cbn [bind] in E; [|discriminate].
-      destruct (Hcancel _ _ _ HR Ea) as (a2 & Ea2 & HRa). rewrite Ea2. cbn [bind].
-      eapply Hconstant; eassumption.
-    + cbn [bind] in E |- *. eapply Hconstant; eassumption.
-Qed.
-
-Lemma sim_pre_member d s1 s2 p1 :
-  Rst s1 s2 -> pre_member H1 d s1 = Ok p1 -> exists p2, pre_member H2 d s2 = Ok p2 /\ Rsum p1 p2.
-Proof.
-  intros HR E. unfold pre_member in *. cbv zeta in *.
-  pose proof HR as [Hr Hc]. rewrite <- Hr.
-  assert (HR1 : Rst (if (r_dnp (w_r s1) =? 0)%Z then s1 else upd_r (fun r => set_dnp (r_dnp r - 1) r) s1)
-                    (if (r_dnp (w_r s1) =? 0)%Z then s2 else upd_r (fun r => set_dnp (r_dnp r - 1) r) s2)).
-  { destruct (r_dnp (w_r s1) =? 0)%Z; [exact HR|apply Rst_upd; exact HR]. }
-  set (a1 := if (r_dnp (w_r s1) =? 0)%Z then s1 else _) in *.
-  set (a2 := if (r_dnp (w_r s1) =? 0)%Z then s2 else _) in *.
-  destruct (negb (r_dnp (w_r s1) =? 0)%Z && dnp_skips d).
-  { injection E as <-. eexists; split; [reflexivity|exact HR1]. }
-  pose proof HR1 as [Hr1 Hc1]. rewrite <- Hr1.
-  destruct (if (r_nbits_new_refval (w_r a1) =? 0)%Z then None else is_plain_elem d) as [e|].
-  { destruct (kind_of_unit (e_unit e)); [discriminate| |].
-    all: destruct (h_new_refval H1 _ _ a1) as [b1|] eqn:Eb; cbn [bind] in E; [|discriminate];
-      destruct (Hnew_refval _ _ _ _ _ HR1 Eb) as (b2 & Eb2 & HRb); rewrite Eb2; cbn [bind];
-      injection E as <-; eexists; split; [reflexivity|exact HRb]. }
-  destruct (negb (r_nbits_skipped (w_r a1) =? 0)%Z).
-  { destruct (h_codeflag H1 _ _ _ a1) as [b1|] eqn:Eb; cbn [bind] in E; [|discriminate].
-    destruct (Hcodeflag _ _ _ _ _ _ HR1 Eb) as (b2 & Eb2 & HRb). rewrite Eb2. cbn [bind].
-    injection E as <-. eexists; split; [reflexivity|]. cbn [Rsum]. apply Rst_upd; exact HRb. }
-  destruct (negb (r_bm_state (w_r a1) =? BITMAP_NA)%N).
-  { destruct (h_bitmap_def_wrap H1 _ a1) as [b1|] eqn:Eb; cbn [bind] in E; [|discriminate].
-    destruct (Hwrap _ _ (sim_bitmap_def_step (desc_id d)) _ _ _ HR1 Eb) as (b2 & Eb2 & HRb).
-    rewrite Eb2. cbn [bind]. injection E as <-. eexists; split; [reflexivity|exact HRb]. }
-  injection E as <-. eexists; split; [reflexivity|exact HR1].
-Qed.
-
-(* unfolding lemmas for the mutual fixpoint *)
-Lemma walk_list_cons {S} (H : handlers S) al m rest s :
-  walk_list H al (DCons m rest) s =
-  bind (pre_member H m s) (fun p => match p with
-     | inl s1 => walk_list H al rest s1
-     | inr s1 => bind (walk H al m s1) (walk_list H al rest) end).
-Proof. reflexivity. Qed.
-
-(* ---- the theorem ----------------------------------------------------------- *)
-Theorem walk_sim :
-  (forall d, simf (walk H1 al1 d) (walk H2 al2 d)) /\
-  (forall ms, simf (walk_list H1 al1 ms) (walk_list H2 al2 ms)).
-Proof.
-  apply desc_descs_ind.
-  - intros e. cbn [walk]. apply sim_do_element.
-  - intros id ms IH. cbn [walk]. apply Hfixed. exact IH.
-  - intros id f _ ms IH. cbn [walk]. apply sim_bind.
-    + destruct f; try apply sim_err. apply sim_do_element.
-    + apply Hdelayed. exact IH.
-  - intros id. cbn [walk]. apply sim_do_operator.
-  - intros id ms IH. exact IH.
-  - intros id. apply sim_err.
-  - intros id. apply sim_err.
-  - exact sim_ret.
-  - intros d IHd ds IHds.
-    eapply sim_ext; [intros s; symmetry; apply walk_list_cons
-                    |intros s; symmetry; apply walk_list_cons|].
-    intros s1 s2 s1' HR E.
-    destruct (pre_member H1 d s1) as [p1|] eqn:Ep; cbn [bind] in E; [|discriminate].
-    destruct (sim_pre_member _ _ _ _ HR Ep) as (p2 & Ep2 & HRp). rewrite Ep2. cbn [bind].
-    destruct p1 as [a1|a1], p2 as [a2|a2]; cbn [Rsum] in HRp; try contradiction.
-    + eapply IHds; eassumption.
-    + eapply (sim_bind _ _ _ _ IHd IHds); eassumption.
-Qed.
+Definition walk_sim :=
+  walk_sim_gen H1 H2 al1 al2 simf sim_ret sim_bind sim_ext sim_upd sim_regs sim_err.
 
 End Sim.
